@@ -9,7 +9,7 @@ ids=("$@")
 if [ ${#ids[@]} -eq 0 ]; then ids=($(ls seeded)); fi
 for id in "${ids[@]}"; do
   prop="${id%%-*}"
-  res=$(SHOW=2 tools/mutant_run.sh "seeded/$id/patch.diff" "$prop" 2>&1 | grep -v WARNING)
+  res=$(SHOW=2 KEEPTAG="seed-$id" tools/mutant_run.sh "seeded/$id/patch.diff" "$prop" 2>&1 | grep -v WARNING)
   code=$(echo "$res" | grep -o "exit=[0-9]*" | head -1 | cut -d= -f2)
   sig=$(echo "$res" | grep '"signature"' | head -1 | sed 's/.*"signature": "\(.*\)",*/\1/' | cut -c1-90)
   grep -v "^$id	" "$out" > "$out.tmp" 2>/dev/null; mv -f "$out.tmp" "$out" 2>/dev/null
